@@ -407,7 +407,7 @@ def plan(tier, seed):
         for rep in range(16 if tier == 'quick' else 200):     # the same kind of systems posed in extreme unit systems / special geometries
             c_ = {'cls': cls, 'kind': 'system', 'seed': [seed, 4, ci, i], 'nmax': 4 if NDIM[cls] < 3 else 3}
             if rep % 2 == 1:
-                c_['geo'] = ['int', 'jitter', 'int', 'nano'][(rep // 2) % 4]
+                c_['geo'] = ['int', 'jitter', 'offset', 'nano', 'negative', 'wild', 'int', 'offset'][(rep // 2) % 8]
             else:
                 c_['units'] = True
             cases.append(c_)
